@@ -80,6 +80,21 @@ def check_text(text: str) -> tuple[str, list[tuple[str, str]], int]:
                                                f'{tree.text_of(m2)!r}'))
                     elif tree.store_text(m2.token_store) != sl:
                         findings.append(('target', f'parse({sl!r}, {type(m).__name__}): store concat differs'))
+                # the same fragment with blanks / a line end at its very edges: where the parser accepts it, the store
+                # still spells the whole input and the model prints a slice of it
+                if ac and not isinstance(m, models.File):
+                    for pre, suf in ((' ', ''), ('', ' '), ('', '\n'), ('\t', ' \r\n')):
+                        v = pre + sl + suf
+                        try:
+                            m3 = tree.parse(v, type(m))
+                        except Exception:  # noqa: BLE001
+                            continue
+                        n_sub += 1
+                        if tree.store_text(m3.token_store) != v:
+                            findings.append(('target-edge', f'parse({v!r}, {type(m).__name__}): the store spells '
+                                                            f'{tree.store_text(m3.token_store)!r}'))
+                        elif tree.text_of(m3) not in v:
+                            findings.append(('target-edge', f'parse({v!r}, {type(m).__name__}) prints {tree.text_of(m3)!r}'))
     return 'accepted', findings, n_sub
 
 
